@@ -49,6 +49,7 @@ func rulesC01(c *Ctx) {
 	ruleC01NotOutermost(c)
 	ruleC01Literal(c)
 	ruleC01Coerce(c)
+	ruleFreshRowCache(c, "C01.ROWCACHE")
 }
 
 // ruleC01Coerce: a number compared as a string has ONE textual form, whether it comes from a stored field,
@@ -885,9 +886,9 @@ func ruleC01Ops(c *Ctx) {
 					}
 				}
 				if u, isU := v.(*ssa.UnOp); isU && u.Op == token.MUL {
-					if f, _ := loadedField(u); f != nil {
+					if f, base := loadedField(u); f != nil && base == ssa.Value(vt.Params[0]) {
 						if bt, isB := f.Type().Underlying().(*types.Basic); isB && bt.Kind() == types.Bool {
-							return avBool(false), true // debug printing switches
+							return avBool(false), true // debug printing switches of the listener
 						}
 					}
 				}
@@ -900,9 +901,16 @@ func ruleC01Ops(c *Ctx) {
 			}
 			nOps := 0
 			for _, ev := range evs {
+				// what is pushed, by its dynamic type (boxed at the push, or earlier on the path when the
+				// value travels in an interface-typed variable or field)
 				args := ev.Call.Common().Args
-				mi, isMI := args[len(args)-1].(*ssa.MakeInterface)
-				if !isMI || namedOf(mi.X.Type()) != binOp {
+				var dyn types.Type
+				if mi, isMI := args[len(args)-1].(*ssa.MakeInterface); isMI {
+					dyn = mi.X.Type()
+				} else {
+					dyn = ev.Args[len(ev.Args)-1].Dyn
+				}
+				if dyn == nil || namedOf(dyn) != binOp {
 					continue
 				}
 				nOps++
@@ -978,6 +986,15 @@ func ruleC01Ops(c *Ctx) {
 	ops := opConsts(c)
 	opFld := p.Field("ast", "BinaryExprNode", "op")
 	strType := constInt(p.Obj("ast", "NodeTypeString"))
+	// the expression under transform: the receiver, also as a helper sees it (there is one binary expression
+	// in an evaluation; a helper or a dispatch-table entry receives it as its own parameter)
+	isNode := func(base ssa.Value) bool {
+		if base == ssa.Value(tt.Params[0]) {
+			return true
+		}
+		prm, isPrm := base.(*ssa.Parameter)
+		return isPrm && types.Identical(prm.Type(), tt.Params[0].Type())
+	}
 	operandName := func(v ssa.Value) string {
 		for i := 0; i < 4; i++ {
 			v = assertSource(v)
@@ -987,7 +1004,7 @@ func ruleC01Ops(c *Ctx) {
 			}
 			break
 		}
-		if f, base := loadedField(v); f != nil && base == ssa.Value(tt.Params[0]) && (f.Name() == "left" || f.Name() == "right") {
+		if f, base := loadedField(v); f != nil && isNode(base) && (f.Name() == "left" || f.Name() == "right") {
 			return f.Name()
 		}
 		return ""
@@ -1005,7 +1022,7 @@ func ruleC01Ops(c *Ctx) {
 		oracle := func(v ssa.Value) (AV, bool) {
 			switch x := v.(type) {
 			case *ssa.UnOp:
-				if f, base := loadedField(x); sameVar(f, opFld) && base == ssa.Value(tt.Params[0]) {
+				if f, base := loadedField(x); sameVar(f, opFld) && isNode(base) {
 					return avInt(ops[w.in]), true
 				}
 				if nm := operandName(x); nm != "" {
